@@ -28,7 +28,8 @@ type Params struct {
 	ConstMeta bool   // all marks/resets carry the same (empty) metadata
 	Split     bool   // the second managed partition is u/1 instead of t/1 (a commit request spanning two topics)
 	RetryMax  int
-	MaxOps    int // marks+resets per partition
+	MaxOps    int      // marks+resets per partition
+	OFaults   []string // faults of the OffsetFetch that ManagePartition makes (notcoord, drop, other)
 	Gates     map[string]bool
 	CloseAny  bool
 	ErrBuf    int  // ChannelBufferSize (capacity of every Errors() channel)
@@ -56,6 +57,9 @@ func init() {
 		}
 		if s := v.Get("faults"); s != "" {
 			p.Faults = strings.Split(s, ",")
+		}
+		if s := v.Get("ofaults"); s != "" {
+			p.OFaults = strings.Split(s, ",")
 		}
 		p.Gates = map[string]bool{}
 		for _, g := range strings.Split(v.Get("gates"), ",") {
@@ -131,6 +135,7 @@ func run(c *gx.Ctl, p *Params) *gx.Outcome {
 	}
 	r.topicOf = topicOf
 	cl.CommitFaults = p.Faults
+	cl.OffsetFetchFaults = p.OFaults // the fetch of the stored position when a partition manager is created
 	g := cl.Group(group)
 	if p.Initial == "valid" {
 		for i := 0; i < p.NParts; i++ {
